@@ -160,6 +160,10 @@ def make_params(g, bc, nrm, inner, e):
         d = dict(p=p, ptot=p * 10 ** (2 * e[0]), rttot=10 ** (4 * e[1] - 2))
         return d
     if bc in ("outsub", "outsub_prim", "outsub_nrcbc", "outsub_rh"):
+        if e[1] < 0.25:
+            # a quarter of the cases: the imposed pressure is within 1e-9 .. 1e-5 (relative) of the interior pressure of the first face, above or below
+            # (an outlet close to its converged state), not equal to it
+            return dict(p=float(p0.flat[0]) * (1.0 + (1.0 if e[2] > 0.5 else -1.0) * 10.0 ** (-9.0 + 16.0 * e[1])))
         return dict(p=float(np.exp(np.mean(np.log(p0)))) * 10 ** (2 * e[0] - 1))
     if bc == "outsub_qtot":
         pt0, _ = _tot(g, rho0, v20, p0)
